@@ -16,12 +16,24 @@
        one well-formed run, so by (2) every schedule gives every device exactly the observations
        of Model/Sim.v -- the model all whole-simulation theorems (C02, C03, C05, C09, C10) are
        stated on and every run of the real schedulers on the in-memory bus is compared with.
-   PARTIAL: (2) and (3) are for one scheduler level (flat simulations) and at the granularity of
-   the ticker's answers; system simulations and the bus below (per-topic queues, latency) are
-   explored on the delaying bus (codes 21/22); Model/NSim.v is also compared with Model/Sim.v by
-   evaluation on every flat case of that exploration (code 23).  Property theorems only. *)
+   (4) Nested simulations, any depth ([C08_nested_schedule_independent], [C08_nested_tick_schedule_independent]):
+       every level -- the master's and every nested scheduler's -- runs its tick as ANY complete run of the ticker;
+       a system simulation answers with the outcome of ANY such run of its own level, started in the state
+       as it is when its turn comes.  Two runs of one script, whatever the answer orders at all levels tick
+       after tick, give every device at every depth the same sequence of (time, inputs) and leave equivalent
+       states (device states, wakeup tables, pending interrupts, per level).  By induction on the depth:
+       confluence of the ticker for components whose answers are relations, footprints of the components of a
+       level are disjoint, a component's answer depends only on its footprint (Proofs/NDetP.v).
+       [C08_nested_schedule_independent_interrupts]: the same with interrupts of devices at any depth (the
+       bookkeeping of Model/Sim.v [raise_interrupt]).
+       [C08_nested_schedules_example]: two strategies, different global orders, a system inside a system.
+   PARTIAL: at the granularity of the ticker's answers; (3) is for one scheduler level -- that Model/Sim.v is
+   one of the nested schedules of (4) is compared by evaluation (Model/NNSim.v under two strategies against
+   Model/Sim.v on every generated case with top-level stimuli, code 24; flat: Model/NSim.v, code 23); the bus
+   below (per-topic queues, latency) is explored on the delaying bus (codes 21/22).  Property theorems only. *)
 From TV Require Import Base Model.Wiring Model.Ticker Model.Component Model.Sim Model.SimTime Model.Inline Model.NSim Oracle.SimCheck
-  Proofs.WiringP Proofs.TickerP Proofs.SimP Proofs.EqvP Proofs.ParDevP Proofs.InlineP Proofs.InlineScopeP Proofs.InlineLatestP Proofs.ScheduleP Proofs.SimTraceP.
+  Proofs.WiringP Proofs.TickerP Proofs.SimP Proofs.EqvP Proofs.ParDevP Proofs.InlineP Proofs.InlineScopeP Proofs.InlineLatestP Proofs.ScheduleP Proofs.SimTraceP
+  Model.Interrupts Model.NNSim Proofs.FrameP Proofs.NScheduleP Proofs.NDetP Proofs.NDetScopeP Proofs.NDetXP.
 
 (* two arbitrary runs of the same tick (same wiring, time, roots), possibly incomplete and
    under different answer orders, whose answers are given by one deterministic function of
@@ -152,3 +164,129 @@ Proof.
   exists (fun c => Pos.to_nat c). intros k Hk. simpl in Hk.
   repeat (destruct Hk as [<-|Hk]; [simpl; lia|]). destruct Hk.
 Qed.
+
+(* (4) nested simulations: any two schedules of all levels.  [subtree_okb cfg (S f) top]: within depth f below the
+   master every level and device is named once and every level lists its components once, under real
+   identifiers, in a topological order of its single-source wiring *)
+Theorem C08_nested_schedule_independent : forall cfg (devf : devfun) f,
+  subtree_okb cfg (S f) top = true ->
+  (forall c n t i, NoDup (keys (fst (devf c n t i)))) ->
+  (forall c n t i i', NoDup (keys i) -> NoDup (keys i') -> eqv i i' -> devf c n t i = devf c n t i') ->
+  forall initial script sA obA sB obB,
+    nnrun cfg devf f initial script sA obA -> nnrun cfg devf f initial script sB obB ->
+    (forall d, obs_rel (dev_obs d obA) (dev_obs d obB)) /\
+    NSR (devices_below cfg (S f) top) (levels_below cfg (S f) top) sA sB.
+Proof.
+  intros cfg devf f Hok Hnd Hext initial script sA obA sB obB HA HB.
+  destruct (nnrun_deterministic cfg devf Hnd Hext f initial script sA obA sB obB (subtree_okb_sound _ _ _ Hok) HA HB) as [H1 H2].
+  split; assumption.
+Qed.
+
+(* one tick of one system simulation (any depth f of nesting below it), handed equivalent input changes in
+   equivalent states: equivalent output changes, the same callback, equivalent states, the same updates *)
+Theorem C08_nested_tick_schedule_independent : forall cfg (devf : devfun) f lv,
+  subtree_okb cfg f lv = true ->
+  (forall c n t i, NoDup (keys (fst (devf c n t i)))) ->
+  (forall c n t i i', NoDup (keys i) -> NoDup (keys i') -> eqv i i' -> devf c n t i = devf c n t i') ->
+  forall time chgA chgB sA sB sA' sB' outA outB caA caB obA obB,
+    NoDup (keys chgA) -> NoDup (keys chgB) -> eqv chgA chgB ->
+    NSR (devices_below cfg f lv) (levels_below cfg f lv) sA sB ->
+    NT cfg devf f lv time chgA sA sA' outA caA obA -> NT cfg devf f lv time chgB sB sB' outB caB obB ->
+    eqv outA outB /\ caA = caB /\
+    NSR (devices_below cfg f lv) (levels_below cfg f lv) sA' sB' /\
+    (forall d, obs_rel (dev_obs d obA) (dev_obs d obB)).
+Proof.
+  intros cfg devf f lv Hok Hnd Hext time chgA chgB sA sB sA' sB' outA outB caA caB obA obB HnA HnB Hchg Hs HA HB.
+  destruct (NT_det cfg devf Hnd Hext f lv (subtree_okb_sound _ _ _ Hok) time chgA chgB sA sB sA' sB' outA outB caA caB obA obB HnA HnB Hchg Hs HA HB)
+    as [H1 [_ [_ [H2 [H3 H4]]]]].
+  split; [exact H1|]. split; [exact H2|]. split; [exact H3 | exact H4].
+Qed.
+
+Theorem C08_nested_schedule_independent_table : forall cfg tab f,
+  subtree_okb cfg (S f) top = true ->
+  forall initial script sA obA sB obB,
+    nnrun cfg (table_dev tab) f initial script sA obA -> nnrun cfg (table_dev tab) f initial script sB obB ->
+    forall d, obs_rel (dev_obs d obA) (dev_obs d obB).
+Proof.
+  intros cfg tab f Hok initial script sA obA sB obB HA HB.
+  apply (C08_nested_schedule_independent cfg (table_dev tab) f Hok (table_dev_nd tab) (table_dev_ext tab) initial script sA obA sB obB HA HB).
+Qed.
+
+(* every strategy that answers the dispatched components of every level one at a time yields such a run *)
+Theorem C08_nested_strategies_are_schedules : forall cfg devf pick steps f initial script s ob,
+  nnrun_from_start cfg devf pick steps f initial script = Some (s, ob) -> nnrun cfg devf f initial script s ob.
+Proof. intros. eapply nnrun_from_start_sound. eassumption. Qed.
+
+(* two schedules of one nested simulation: 3 feeds the system simulations 4 (devices 5, 6 in parallel, then 12) and 7
+   (device 9, then the system simulation 10 with the unconnected devices 11, 13), both feed 8; callbacks at several
+   depths and interrupts of 3 and 8.  The global orders of updates differ from the first tick on (system 4 before
+   system 7 / 7 before 4, 5 before 6 / 6 before 5, 11 before 13 / 13 before 11); the same number of updates, and per device the observations of Model/Sim.v *)
+Definition par_cfg : config :=
+  [(1%positive, {| l_order := [(3%positive, KDev); (4%positive, KSys 2%positive); (7%positive, KSys 3%positive); (8%positive, KDev)];
+                   l_conns := [(3, 1, 4, 1); (3, 2, 7, 1); (4, 1, 8, 1); (7, 1, 8, 2)]%positive |});
+   (2%positive, {| l_order := [(5%positive, KDev); (6%positive, KDev); (12%positive, KDev)];
+                   l_conns := [(1, 1, 5, 1); (1, 1, 6, 1); (5, 1, 12, 1); (6, 1, 12, 2); (12, 1, 2, 1)]%positive |});
+   (3%positive, {| l_order := [(9%positive, KDev); (10%positive, KSys 4%positive)];
+                   l_conns := [(1, 1, 9, 1); (9, 1, 10, 1); (10, 1, 2, 1)]%positive |});
+   (4%positive, {| l_order := [(11%positive, KDev); (13%positive, KDev)]; l_conns := [(1, 1, 11, 1); (1, 1, 13, 1); (11, 1, 2, 1)]%positive |})].
+Definition par_tab : dev_table :=
+  [(3%positive, (11, 300, 1)); (5%positive, (12, 700, 1)); (6%positive, (13, 500, 4)); (8%positive, (14, 400, 0));
+   (9%positive, (15, 600, 1)); (11%positive, (16, 900, 4)); (12%positive, (17, 400, 0)); (13%positive, (18, 350, 1))].
+Definition par_script := [ITick; ITick; ITick; IStim 3%positive 650; ITick; ITick; IStim 8%positive 1000; ITick; ITick; ITick].
+
+Example C08_nested_schedules_example :
+  subtree_okb par_cfg 4 top = true /\
+  match nnrun_from_start par_cfg (table_dev par_tab) pick_first 100 3 0 par_script,
+        nnrun_from_start par_cfg (table_dev par_tab) pick_last 100 3 0 par_script with
+  | Some (_, obA), Some (_, obB) =>
+      firstn 8 (map obs_comp obA) = [3; 5; 6; 12; 9; 11; 13; 8]%positive /\
+      firstn 8 (map obs_comp obB) = [3; 9; 13; 11; 6; 5; 12; 8]%positive /\
+      length obA = length obB /\
+      existsb (fun o : obs => Pos.eqb (obs_comp o) 3 && Z.eqb (snd (fst o)) 650) obA = true /\
+      existsb (fun o : obs => Pos.eqb (obs_comp o) 8 && Z.eqb (snd (fst o)) 1000) obA = true /\
+      (* every device: the same observations under both schedules, and those of Model/Sim.v *)
+      forallb (fun d => seq_eqb (obs_of d obA) (obs_of d obB) &&
+                        seq_eqb (obs_of d obA) (obs_of d (snd (sim_script_from_start par_cfg (table_dev par_tab) 4 0 par_script))))
+              [3; 5; 6; 12; 9; 11; 13; 8]%positive = true
+  | _, _ => False
+  end.
+Proof. vm_compute. repeat split; reflexivity. Qed.
+
+(* ... with interrupts of devices at any depth between the ticks *)
+Theorem C08_nested_schedule_independent_interrupts : forall cfg (devf : devfun) f,
+  subtree_okb cfg (S f) top = true ->
+  (forall c n t i, NoDup (keys (fst (devf c n t i)))) ->
+  (forall c n t i i', NoDup (keys i) -> NoDup (keys i') -> eqv i i' -> devf c n t i = devf c n t i') ->
+  forall initial script sA obA sB obB,
+    xnrun cfg devf f initial script sA obA -> xnrun cfg devf f initial script sB obB ->
+    (forall d, obs_rel (dev_obs d obA) (dev_obs d obB)) /\
+    NSR (devices_below cfg (S f) top) (levels_below cfg (S f) top) sA sB.
+Proof.
+  intros cfg devf f Hok Hnd Hext initial script sA obA sB obB HA HB.
+  destruct (xnrun_deterministic cfg devf Hnd Hext f initial script sA obA sB obB (subtree_okb_sound _ _ _ Hok) HA HB) as [H1 H2].
+  split; assumption.
+Qed.
+
+Theorem C08_nested_strategies_are_schedules_interrupts : forall cfg devf pick steps f initial script s ob,
+  xnrun_from_start cfg devf pick steps f initial script = Some (s, ob) -> xnrun cfg devf f initial script s ob.
+Proof. intros. eapply xnrun_from_start_sound. eassumption. Qed.
+
+(* the example above with an interrupt of device 13 (two system simulations deep, inside 10 inside 7) and one of 6 *)
+Definition par_xscript :=
+  [XTick; XTick; XTick; XStim 13%positive 4%positive [(1%positive, 7%positive); (3%positive, 10%positive)] 650; XTick; XTick;
+   XStim 6%positive 2%positive [(1%positive, 4%positive)] 1000; XTick; XTick; XTick].
+
+Example C08_nested_interrupts_example :
+  match xnrun_from_start par_cfg (table_dev par_tab) pick_first 100 3 0 par_xscript,
+        xnrun_from_start par_cfg (table_dev par_tab) pick_last 100 3 0 par_xscript with
+  | Some (_, obA), Some (_, obB) =>
+      length obA = length obB /\
+      negb (list_eqb Pos.eqb (map obs_comp obA) (map obs_comp obB)) = true /\
+      existsb (fun o : obs => Pos.eqb (obs_comp o) 13 && Z.eqb (snd (fst o)) 650) obA = true /\
+      existsb (fun o : obs => Pos.eqb (obs_comp o) 6 && Z.eqb (snd (fst o)) 1000) obA = true /\
+      forallb (fun d => seq_eqb (obs_of d obA) (obs_of d obB) &&
+                        seq_eqb (obs_of d obA) (obs_of d (snd (xsim_from_start par_cfg (table_dev par_tab) 4 0 par_xscript))))
+              [3; 5; 6; 12; 9; 11; 13; 8]%positive = true
+  | _, _ => False
+  end.
+Proof. vm_compute. repeat split; reflexivity. Qed.
